@@ -191,3 +191,25 @@ Definition check_default_sq (tol : Q) (supplied : option Qc) (default obs_cov : 
   let s := with_default supplied default in qc_rclose tol obs_cov (s * s)%Qc.
 Definition check_default (tol : Q) (supplied : option Qc) (default obs : Qc) : bool :=
   qc_rclose tol obs (with_default supplied default).
+
+(* ---------------- which domain geometry a PDE/Abel test problem gets ---------------- *)
+(* field_type: None | a documented name | a Geometry INSTANCE of some class; map: given or not.
+   Documented: the base geometry is chosen by field_type, and it is wrapped in MappedGeometry(base, map, imap)
+   whenever a map is given -- for names AND for instances. *)
+Inductive gclass := GContinuous1D | GKL | GKLFull | GStep | GCustomKL.
+Inductive ftype := FNone | FName (c : gclass) | FInstance (c : gclass).
+Definition gclass_code (c : gclass) : nat :=
+  match c with GContinuous1D => 0 | GKL => 1 | GKLFull => 2 | GStep => 3 | GCustomKL => 4 end%nat.
+Definition base_class (f : ftype) : gclass :=
+  match f with FNone => GContinuous1D | FName c => c | FInstance c => c end.
+(* (is a MappedGeometry, class of the (wrapped) base geometry, base is the very object passed in) *)
+Definition domain_geometry_desc (f : ftype) (has_map : bool) : bool * nat * bool :=
+  (has_map, gclass_code (base_class f), match f with FInstance _ => true | _ => false end).
+Definition check_domain_geometry (f : ftype) (has_map : bool) (obs_mapped : bool) (obs_class : nat) (obs_same_object : bool)
+           (obs_map_is_supplied obs_imap_is_supplied : bool) : bool :=
+  let '(m, c, inst) := domain_geometry_desc f has_map in
+  Bool.eqb obs_mapped m && (obs_class =? c)%nat && (if inst then obs_same_object else true)
+  && (if has_map then obs_map_is_supplied && obs_imap_is_supplied else true).
+(* Abel1D forward = A . (function values): A checked against the quadrature, then applied *)
+Definition check_abel_forward (tol : Q) (n : nat) (endpoint : Qc) (obsA : list (list Qc)) (f obs : list Qc) : bool :=
+  check_abel_r tol n endpoint obsA && qcl_rclose tol obs (qmatvec obsA f).
